@@ -61,7 +61,16 @@ def gen_history(rng, nops):
             i = pick(lambda k: k[0] == "unbound")
             if i is not None:
                 sid = kinds[i][1]
-                kw = {"c": rng.randrange(4)} if sid == "param" else {"c": rng.random() < 0.5, "d": rng.randrange(4)}
+                if sid == "param":
+                    kw = {"c": rng.randrange(4)}
+                elif sid == "param2":
+                    kw = {"c": rng.random() < 0.5, "d": rng.randrange(4)}
+                elif sid == "param_all":
+                    kw = {"c": [rng.random() < 0.7 for _ in range(3)]}
+                elif sid == "param_sum":
+                    kw = {"c": [rng.randrange(4), rng.randrange(4)]}
+                else:
+                    kw = {"c": [rng.random() < 0.5, rng.random() < 0.5]}
                 add(["bind", i, kw], ("qf", "bound:" + sid, True))
         elif r < 0.56:
             i = pick(lambda k: k[0] == "qf" and k[2] and k[1] in ("ident", "inc", "add", "oracle_named", "cmp"))
@@ -151,6 +160,9 @@ CORPUS = [
     [["compile", "shadow_inspect", True, "default", True], ["compile", "tuple", True, "default", True], ["encode_decode", 1]],
     [["compile", "and", True, "default", True], ["compile", "and_other_body", True, "default", True], ["defs", "caller_f", 0], ["defs", "caller_f", 1], ["truth_table", 2]],
     [["compile", "ident", True, "default", True], ["defs", "caller_g", 0], ["compile", "inc", True, "default", True], ["defs", "caller_g", 2], ["defs", "caller_g", 0]],
+    [["compile", "param_all", True, "default", True], ["bind", 0, {"c": [True, True, True]}], ["bind", 0, {"c": [True, False, True]}], ["bind", 0, {"c": [True, True, True]}], ["truth_table", 2]],
+    [["compile", "param_sum", True, "default", True], ["bind", 0, {"c": [1, 2]}], ["bind", 0, {"c": [0, 0]}], ["truth_table", 2], ["bind", 0, {"c": [3, 3]}]],
+    [["compile", "param_any", True, "fast", True], ["bind", 0, {"c": [False, False]}], ["bind", 0, {"c": [True, False]}], ["export", 2, "qasm", "circuit"]],
 ]
 
 
